@@ -334,6 +334,77 @@ theorem C04_every_literal_skips (rules : List RuleDef) (h : ignoredIdxs rules 0 
   simp only [prepare, this, Bool.false_eq_true, ↓reduceIte]
   exact allSkipList_setSkipList _
 
+theorem findStart_lt : ∀ (rs : List RuleDef) (j i : Nat), findStart rs j = some i → i < j + rs.length := by
+  intro rs
+  induction rs with
+  | nil => intro j i h; simp [findStart] at h
+  | cons r rs ih =>
+    intro j i h
+    simp only [findStart] at h
+    split at h
+    · simp at h; subst h; simp
+    · have := ih _ _ h; simp; omega
+
+theorem firstPlain_lt : ∀ (rs : List RuleDef) (j i : Nat), firstPlain rs j = some i → i < j + rs.length := by
+  intro rs
+  induction rs with
+  | nil => intro j i h; simp [firstPlain] at h
+  | cons r rs ih =>
+    intro j i h
+    simp only [firstPlain] at h
+    split at h
+    · have := ih _ _ h; simp; omega
+    · simp at h; subst h; simp
+
+theorem startOf_lt (rules : List RuleDef) (i : Nat) (h : startOf rules = some i) : i < rules.length := by
+  unfold startOf at h
+  split at h
+  · next j hj => cases h; simpa using findStart_lt rules 0 _ hj
+  · simpa using firstPlain_lt rules 0 _ h
+
+/-- the first rule found by `firstPlain` is not ignored, and every rule before it is -/
+theorem firstPlain_spec : ∀ (rs : List RuleDef) (j i : Nat), firstPlain rs j = some i →
+    j ≤ i ∧ (∃ r, rs[i - j]? = some r ∧ r.ignored = false) ∧ ∀ k, k < i - j → ∃ r, rs[k]? = some r ∧ r.ignored = true := by
+  intro rs
+  induction rs with
+  | nil => intro j i h; simp [firstPlain] at h
+  | cons r rs ih =>
+    intro j i h
+    simp only [firstPlain] at h
+    split at h
+    · next hr =>
+      obtain ⟨h1, ⟨r', h2, h3⟩, h4⟩ := ih _ _ h
+      refine ⟨by omega, ⟨r', ?_, h3⟩, ?_⟩
+      · have : i - j = (i - (j + 1)) + 1 := by omega
+        rw [this]; simpa using h2
+      · intro k hk
+        cases k with
+        | zero => exact ⟨r, by simp, hr⟩
+        | succ k => simpa using h4 k (by omega)
+    · next hr =>
+      simp at h; subst h
+      refine ⟨Nat.le_refl _, ⟨r, by simp, by simpa using hr⟩, ?_⟩
+      intro k hk; omega
+
+/-- **C04 (which rule is the start rule).**  The rule called `start`; in a grammar without one, the
+    first rule that does not carry the `ignore` modifier - wherever the ignore declarations stand. -/
+theorem C04_start_rule (rules : List RuleDef) :
+    (∀ i, findStart rules 0 = some i → startOf rules = some i) ∧
+    (findStart rules 0 = none → ∀ i, startOf rules = some i →
+      (∃ r, rules[i]? = some r ∧ r.ignored = false) ∧ ∀ k, k < i → ∃ r, rules[k]? = some r ∧ r.ignored = true) := by
+  refine ⟨fun i h => by simp [startOf, h], ?_⟩
+  intro hn i h
+  simp only [startOf, hn] at h
+  obtain ⟨_, h2, h3⟩ := firstPlain_spec rules 0 i h
+  exact ⟨by simpa using h2, fun k hk => h3 k (by omega)⟩
+
+-- non-vacuity: `ignore Sp = " "; Main = "a"; Other = "b"` has no rule called start: `Main` it is, with the leading skip
+example :
+    let rules : List RuleDef := [⟨false, .str [32] false, true⟩, ⟨false, .str [97] false, false⟩, ⟨false, .str [98] false, false⟩]
+    findStart rules 0 = none ∧ startOf rules = some 1 ∧ (prepare rules).start = 1 ∧
+    (prepare rules).bodies[1]? = some (.discard (.ref 3) (.str [97] true) true) := by
+  refine ⟨by rfl, by rfl, by rfl, by rfl⟩
+
 /-- (b) the skip rule is `Skip(r₁, …, rₙ)` over exactly the rules declared `ignore`, in
     declaration order, wherever they were declared -/
 theorem C04_ignored_rule (rules : List RuleDef) (h : ignoredIdxs rules 0 ≠ []) :
@@ -343,25 +414,15 @@ theorem C04_ignored_rule (rules : List RuleDef) (h : ignoredIdxs rules 0 ≠ [])
   simp only [prepare, this, Bool.false_eq_true, ↓reduceIte]
   refine ⟨trivial, ?_⟩
   rw [setSkipList_getElem?, mapIdx_getElem?]
-  have hne : findStart rules 0 ≠ some rules.length := by
-    have : ∀ (rs : List RuleDef) (j i : Nat), findStart rs j = some i → i < j + rs.length := by
-      intro rs
-      induction rs with
-      | nil => intro j i h; simp [findStart] at h
-      | cons r rs ih =>
-        intro j i h
-        simp only [findStart] at h
-        split at h
-        · simp at h; subst h; simp
-        · have := ih _ _ h; simp; omega
+  have hne : startOf rules ≠ some rules.length := by
     intro heq
-    have := this rules 0 _ heq
+    have := startOf_lt rules _ heq
     omega
   simp [hne, setSkip, setSkipList_refs]
 
 /-- (c) the leading skip sits in front of the start rule's expression … -/
 theorem C04_leading_skip (rules : List RuleDef) (h : ignoredIdxs rules 0 ≠ []) (i : Nat)
-    (r : RuleDef) (hs : findStart rules 0 = some i) (hr : rules[i]? = some r) :
+    (r : RuleDef) (hs : startOf rules = some i) (hr : rules[i]? = some r) :
     (prepare rules).bodies[i]? = some (setSkip (addLeading rules.length r.body)) := by
   have : (ignoredIdxs rules 0).isEmpty = false := by cases hh : ignoredIdxs rules 0 <;> simp_all
   have hi : i < rules.length := by
@@ -377,7 +438,7 @@ theorem C04_leading_skip (rules : List RuleDef) (h : ignoredIdxs rules 0 ≠ [])
 /-- … and no other rule body acquires a reference to the skip rule: ignorable text is skipped
     at the start and after literals, and at no other point -/
 theorem C04_no_other_skip_point (rules : List RuleDef) (h : ignoredIdxs rules 0 ≠ []) (i : Nat)
-    (r : RuleDef) (hs : findStart rules 0 ≠ some i) (hr : rules[i]? = some r)
+    (r : RuleDef) (hs : startOf rules ≠ some i) (hr : rules[i]? = some r)
     (hrefs : RefsBelow rules.length r.body = true) :
     ∃ b, (prepare rules).bodies[i]? = some b ∧ RefsBelow rules.length b = true := by
   have : (ignoredIdxs rules 0).isEmpty = false := by cases hh : ignoredIdxs rules 0 <;> simp_all
